@@ -113,7 +113,7 @@ SAMTOOLS_FAILURES = ('merge-fail', 'merge-fail-half', 'merge-fail-subset', 'rehe
 
 def bounds(tier):
     return {'modes': ['single', 'multi'], 'methods': ['nla', 'chic'],
-            'kinds': ['exception', 'kill', 'interrupt (KeyboardInterrupt)', 'oserror (OSError ENOSPC, site level)'],
+            'kinds': ['exception', 'kill', 'interrupt (KeyboardInterrupt)', 'oserror (OSError ENOSPC, site level)', 'memoryerror (MemoryError, site level)'],
             'levels': ['site (wrapped operations incl. half-written sort / merge / index output, file-system calls, status writes)',
                        'line (before every executed line of bamtagmultiome.py, bamFunctions.py, tagging.py)'],
             'line_level': ('exception: first+last occurrence of every line; kill: one per distinct on-disk state; interrupt: one per distinct (state, stack); nla'
@@ -314,6 +314,8 @@ class Injector:
             raise KeyboardInterrupt()     # what a SIGINT (ctrl-c, scheduler soft kill) does to the process
         if kind == 'oserror':
             raise OSError(errno.ENOSPC, f'injected at {site}#{occ}:{when}')
+        if kind == 'memoryerror':
+            raise MemoryError(f'injected at {site}#{occ}:{when}')      # what an exhausted molecule buffer / allocator raises
         raise _Injected(f'injected at {site}#{occ}:{when}')
 
     def note_fire(self):
@@ -1158,11 +1160,13 @@ def shards(tier):
     for mode in ('single', 'multi'):
         for method in ('nla', 'chic'):
             # new sites of the plain configuration (file-system calls, status writes, half-written index) and the oserror kind
-            for kind in ('exception', 'kill', 'interrupt', 'oserror'):
+            for kind in ('exception', 'kill', 'interrupt', 'oserror', 'memoryerror'):
                 if tier == 'quick' and (method == 'chic' or kind == 'interrupt'):
                     continue
                 for prior in (False, True):
-                    if tier == 'quick' and prior and kind == 'oserror':
+                    if tier == 'quick' and prior and kind in ('oserror', 'memoryerror'):
+                        continue
+                    if kind == 'memoryerror' and prior:
                         continue
                     nparts = (2 if mode == 'multi' else 1) * (8 if (tier != 'quick' and kind == 'exception' and not prior) else 1)
                     for part in range(nparts):
@@ -1381,7 +1385,7 @@ def run_shard(shard, tier, acc):
                 plans.append([('sort', s0[1] + j, 'before', kind) for j in range(3)])
     elif level == 'newsite':
         for p in allpts:
-            if (kind == 'oserror' or not _is_old_point(p)) and not (prior and _not_for_rerun(p)):
+            if (kind in ('oserror', 'memoryerror') or not _is_old_point(p)) and not (prior and _not_for_rerun(p)):
                 plans.append([p + (kind,)])
         if prior and kind == 'exception':
             # a re-run whose status file cannot be written (a colleague's file, read-only bit, quota): alone, and followed by an
@@ -1406,7 +1410,7 @@ def run_shard(shard, tier, acc):
                 for occ in range(1, nstatus):
                     for when in ('before', 'inside', 'inside-all-but-newline'):
                         plans.append([p + (kind,), ('status_write', occ, when, 'oserror')])
-        if kind in ('exception', 'oserror'):
+        if kind in ('exception', 'oserror', 'memoryerror'):
             # sort is retried at other temp locations: all three attempts of one sort failing, for every sort and every variant
             for s0 in [p for p in allpts if p[0] == 'sort' and p[2] == 'before']:
                 if s0[1] > 0 and mode == 'single':
